@@ -3,6 +3,8 @@ package main
 import (
 	"fmt"
 	"go/token"
+
+	"golang.org/x/tools/go/ssa"
 )
 
 // nolockif <expr> (function contract, over the parameters): when the condition holds at a call the function takes
@@ -70,4 +72,36 @@ func (f *Frame) safetyKindWanted(kind string) bool {
 		}
 	}
 	return false
+}
+
+// smallHelper: a function of the repository without a contract that is small, loop-free, does not defer, spawn or
+// select, and is not already being executed in this chain of inlined calls.
+func (f *Frame) smallHelper(fn *ssa.Function) bool {
+	if fn == nil || fn.Blocks == nil || len(fn.Blocks) > 10 || f.depth >= 3 {
+		return false
+	}
+	n := 0
+	for _, b := range fn.Blocks {
+		for _, s := range b.Succs {
+			if s.Dominates(b) {
+				return false // a loop
+			}
+		}
+		for _, in := range b.Instrs {
+			n++
+			switch in.(type) {
+			case *ssa.Defer, *ssa.Go, *ssa.Select, *ssa.RunDefers:
+				return false
+			}
+		}
+	}
+	if n > 80 {
+		return false
+	}
+	for x := f; x != nil; x = x.parent {
+		if x.fn == fn {
+			return false
+		}
+	}
+	return true
 }
